@@ -125,11 +125,12 @@ plan(Plan(
 ))
 plan(Plan(
     id="C04", title="Trusted markup is emitted verbatim and escaping happens exactly once",
-    contracts=RENDER_FNS + HTML_FNS + [CORE + "wrap_displayhook_handler.handler_wrapper", CORE + "HTMLTextDocument.render", CORE + "_tagchilds_to_tagnodes", CORE + "consolidate_attrs"],
+    contracts=RENDER_FNS + HTML_FNS + [CORE + "wrap_displayhook_handler.handler_wrapper", CORE + "HTMLTextDocument.render", CORE + "_tagchilds_to_tagnodes", CORE + "consolidate_attrs",
+                                        CORE + "HTMLDocument.save_html", CORE + "Tag.save_html#delegates", CORE + "_render_tag_or_taglist", CORE + "Tag.add_class", CORE + "Tag.add_style"],
     lean={"HV.C02": ["C04_raw_verbatim_list", "C04_raw_verbatim_tag", "C04_repr_verbatim_tag", "C04_noesc_text_verbatim"],
           "HV.C03": ["C04_html_attr_verbatim", "C04_add_rend", "C04_add_raw", "C04_concat_algebra", "C04_all_plain"]},
     gconds=TABLE_G + ["G:HTML:no__iadd__"], oracle="c04", design_ref="§7 C04",
-    own=_own("HTML.", "_normalize_text", "html_escape", "handler_wrapper", "HTMLTextDocument.render", "_tagchilds_to_tagnodes", "consolidate_attrs"),
+    own=_own("HTML.", "_normalize_text", "html_escape", "handler_wrapper", "HTMLTextDocument.render", "_tagchilds_to_tagnodes", "consolidate_attrs", "save_html", "Tag.add_class", "Tag.add_style"),
     assumptions=["`every rendering path`: besides get_html_string / render, the display hook of `with tag:` (its wrapper keeps _repr_html_ markup as HTML) and "
                  "HTMLTextDocument.render (placeholder replaced by str.replace, no template processing) are under contract here; HTMLDocument.render is C11's",
                  "`+` with operands other than str/HTML goes through str(other), an external call (A5); other UserString methods (%, format, join) are not in the statement"],
@@ -290,14 +291,20 @@ def _c08_own(name):
     return name.startswith("F:") or _own("Tag.__copy__", "_render_tag_or_taglist", ".tagify", "delegates", "__eq__", "_normalize_attr_name")(name)
 
 
+def _jsx_purity_extra(ctx):
+    """JSXTag.tagify() is a tagify(): its ownership (purity) obligations also serve C08 and C18; the package-file conditions stay with C20"""
+    from .audit_own import obligations
+    return [v for v in obligations(ctx) if not v.name.startswith("G:_jsx.lib")]
+
+
 plan(Plan(
     id="C08", title="Rendering and tagify are pure and consistent; tagify returns an independent copy",
     contracts=TAGIFY_FNS + DEPS_FNS + RENDER_FNS + DOC_FNS + [CORE + "Tag.__copy__", CORE + "_render_tag_or_taglist", CORE + "_equals_impl", CORE + "TagAttrDict._normalize_attr_name",
-               CORE + "HTMLDependency.source_path_map", CORE + "HTMLDependency.as_dict", CORE + "HTMLDependency.as_html_tags#record", CORE + "HTMLDependency.serialize_to_script_json#record"],
+               CORE + "HTMLDependency.source_path_map", CORE + "HTMLDependency.as_dict", CORE + "HTMLDependency.as_html_tags#record", CORE + "HTMLDependency.serialize_to_script_json#record", "htmltools._jsx.JSXTag.__copy__"],
     lean={"HV.C09": ["C08_tagify_id_T", "C08_tagify_id_L", "C08_tagify_fixed_point"],
           "HV.C08": ["C08_attrsEq_refl", "C08_eq_refl_N", "C08_eq_refl_L", "C08_eq_tag", "C08_eq_kinds", "C08_attrsEq_sound", "C08_nodesEq_cons", "C08_nodesEq_len", "C08_eq_text"],
           "HV.AttrFacts": ["C15_normName_idem"]},
-    oracle="c08", design_ref="§7 C08", own=_c08_own,
+    extra=_jsx_purity_extra, oracle="c08", design_ref="§7 C08", own=_c08_own,
     claim="frame obligations: on every path of tagify / render / get_html_string / get_dependencies / Tag.__copy__ / str() / HTMLDocument._gen_html_tag_tree, "
           "_hoist_head_content and render every store write targets an object allocated in that activation; tagify's result elements that are tags or metadata nodes are "
           "newly allocated; Tag.__copy__ copies every field into a new object with its own attrs and children; str/repr/_repr_html_ reduce to render()['html'] in the "
@@ -340,17 +347,18 @@ plan(Plan(
 
 def _c18_extra(ctx):
     from .audit_det import obligations
-    return obligations(ctx)
+    return obligations(ctx) + _jsx_purity_extra(ctx)
 
 
 plan(Plan(
     id="C18", title="Output is deterministic across processes and independent of history",
     contracts=[UTIL + "hash_deterministic", CORE + "head_content", CORE + "_resolve_dependencies", CORE + "TagList.get_dependencies", CORE + "Tag.get_dependencies",
-               TDP + "_static_extract_serialized_html_deps", CORE + "_render_tag_or_taglist", CORE + "Tag.__copy__", CORE + "HTMLDocument._gen_html_tag_tree"] + TAGIFY_FNS + RENDER_FNS,
+               TDP + "_static_extract_serialized_html_deps", CORE + "_render_tag_or_taglist", CORE + "Tag.__copy__", CORE + "HTMLDocument._gen_html_tag_tree", "htmltools._jsx.JSXTag.__copy__", CORE + "HTMLDependency.source_path_map", CORE + "HTMLDependency.as_dict",
+               CORE + "HTMLDependency.as_html_tags#record", CORE + "HTMLDependency.serialize_to_script_json#record"] + TAGIFY_FNS + RENDER_FNS,
     lean={"HV.C18": ["C18_name_function_of_content", "C18_names_injective", "C18_render_is_a_function"],
           "HV.C10": ["C10_resolve_order", "C10_resolve_names_nodup"], "HV.C13": ["C13_dedup_order", "C13_dedup_nodup"]},
     extra=_c18_extra, oracle="c18", design_ref="§7 C18",
-    own=lambda name: name.startswith("G:determinism") or ":subset" in name or _own("hash_deterministic", "head_content", "_resolve_dependencies", "_static_extract", "get_dependencies")(name),
+    own=lambda name: name.startswith("G:determinism") or ":subset" in name or "_jsx." in name or _own("hash_deterministic", "head_content", "_resolve_dependencies", "_static_extract", "get_dependencies")(name),
     claim="every function on the render path under a discharged functional contract `result == f(arguments)` is a function of its arguments alone (the verified subset has no "
           "model for set iteration order, hash(), id(), clocks, the environment or module state; a function using one leaves the subset and is reported); the same exclusions are "
           "checked syntactically on the by-name call-graph closure of the observable APIs; head_content's name is proved to be 'headcontent_' + sha1(rendered content)",
